@@ -62,6 +62,22 @@ def run_align(case):
         rng = np.random.RandomState(case['noise'])
         xs = [p + rng.uniform(-0.001, 0.001, 3) for p in xs]
         plane = [p + rng.uniform(-0.001, 0.001, 3) for p in plane]
+    if case.get('history'):
+        # the system has a history: it was aligned once, then the same pose objects were re-scaled (Pose.scale, what the scaler uses),
+        # and now the re-scaled system is aligned - like any other system
+        f = case['history']
+        try:
+            LighthouseSystemAligner.align(origin, xs, plane, cur_bs)
+        except Exception:  # noqa
+            pass
+        for p_ in cur_bs.values():
+            p_.scale(f)
+        origin = origin * f
+        xs = [p_ * f for p_ in xs]
+        plane = [p_ * f for p_ in plane]
+        true_bs = {k: Pose(p_.rot_matrix.copy(), p_.translation * f) for k, p_ in true_bs.items()}
+        M_t = M_t * f
+        out.feat('aligned-scaled-aligned')
     snap_in = (_snapshot(cur_bs), origin.copy(), [p.copy() for p in xs], [p.copy() for p in plane])
     core = case['angle'] <= 20.0 and np.linalg.norm(M_t) <= 2.0
     minimal = len(xs) == 1 and len(plane) == 1
@@ -88,8 +104,10 @@ def run_align(case):
         out.fail('align:stations-lost', desc)
         return out
     for k in cur_bs:
-        want = tr.rotate_translate_pose(cur_bs[k])
-        if np.max(np.abs(want.rot_matrix - result[k].rot_matrix)) > 1e-9 or np.max(np.abs(want.translation - result[k].translation)) > 1e-9:
+        # the transformation applied by plain matrix algebra (not by the library's own composition)
+        want_R = tr.rot_matrix @ cur_bs[k].rot_matrix
+        want_t = tr.rot_matrix @ cur_bs[k].translation + tr.translation
+        if np.max(np.abs(want_R - result[k].rot_matrix)) > 1e-9 or np.max(np.abs(want_t - result[k].translation)) > 1e-9:
             out.fail('align:not-applied-uniformly', '%s: station %r' % (desc, k))
     ids = sorted(cur_bs)
     for i in ids:
@@ -180,7 +198,8 @@ def align_case(draw, flip=False):
     if tiny:
         angle, shift = angle / 30.0 * 0.02, [x / 3.0 * 0.0008 for x in shift]
     return {'axis': axis, 'angle': angle, 'shift': shift, 'stations': stations, 'x_points': x_points, 'plane_points': plane_points,
-            'noise': 0 if (flip or tiny) else draw(st.sampled_from([0, 0, 0, 7])), 'flip': flip, 'tiny': tiny}
+            'noise': 0 if (flip or tiny) else draw(st.sampled_from([0, 0, 0, 7])), 'flip': flip, 'tiny': tiny,
+            'history': None if (flip or tiny) else draw(st.sampled_from([None, None, None, 0.8, 0.93, 1.07 if r <= 2.8 else 0.93]))}
 
 
 # ---------------------------------------------------------------- scaling
